@@ -904,6 +904,9 @@ def run(chk):
         "hand model coq/Emu/SortDefs.v of sort_replace and the sort module; its two-mux breakdown pipeline is proved to be an instance of the bay model (the wiring coq/Emu/BayBreakdownDefs.v; C20_pipeline_is_bay_instance), so the worklist is not modelled twice; "
         "validated each run against the compiled src/emu/sort.c, bay.c, chan.c, mux.c and the static connect_cpu/select_tr/select_idle "
         "of {nosv,nanos6}/breakdown.c (harness/sort_h.c #includes breakdown.c)",
+        "translate/units/sortc.py + _stagec.py: sort_replace / sort_cb_input / sort_init translated to Gallina on every run (prelude coq/Emu/SortCPre.v: "
+        "arrays as lists with trapping accesses, bounded for_while, qsort = isort, chan_read / chan_set on the outputs); translate/units/connect.py: "
+        "create_cpu / connect_cpu of nosv/breakdown.c (prelude coq/Emu/ConnectPre.v; select_tr / select_idle, sort_set_input and the calling loops are hand-rendered)",
         "glibc qsort sorts int64_t correctly (first callback of the sort module: memcpy + qsort); modelled as insertion sort",
         "the emulator above the CPU channels (thread/CPU tracking muxes, event handlers) is not modelled: the order in which one event "
         "dirties the CPU channels (task type, subsystem before idle; model_cpu.c connects in enum order) is read from the source and "
@@ -914,7 +917,7 @@ def run(chk):
     chk.assumptions = ["sort inputs are null (or read as 0) when connected, as breakdown.tri is",
                        "values compared as int64_t; null and double inputs read as 0 (sort_cb_input)",
                        "each CPU channel is written at most once per event"]
-    proved = chk.translate_and_prove(["cmp_sortmod"])
+    proved = chk.translate_and_prove(["cmp_sortmod", "sortc", "tables", "pv", "connect"])
 
     build = common.repo_build("hook")
     hdir = os.path.join(common.BUILD, "harness")
